@@ -152,6 +152,11 @@ VARIANTS = {
         sub("src/cards/two.rs", "        points.ceil() as i8", "        debug_assert!((-1.5..=20.0).contains(&points), \"chen range\");\n        points.ceil() as i8"),
         sub("src/cards/binary_card.rs", "            if *self & bc == bc {\n                *self ^= bc;", "            if *self & bc == bc {\n                debug_assert!(bc.is_power_of_two());\n                *self ^= bc;"),
     ], ["C01", "C02", "C04", "C05", "C06", "C07", "C15", "C16", "C17"]),
+    # the candidate loops of Six and Seven as index loops
+    "bestof_index_loops": ([
+        sub("src/cards/six.rs", "        for perm in Six::FIVE_CARD_PERMUTATIONS {\n            let hand = self.five_from_permutation(perm);", "        for i in 0..Six::FIVE_CARD_PERMUTATIONS.len() {\n            let hand = self.five_from_permutation(Six::FIVE_CARD_PERMUTATIONS[i]);"),
+        sub("src/cards/seven.rs", "        for perm in Seven::FIVE_CARD_PERMUTATIONS {\n            let hand = self.five_from_permutation(perm);", "        for i in 0..Seven::FIVE_CARD_PERMUTATIONS.len() {\n            let hand = self.five_from_permutation(Seven::FIVE_CARD_PERMUTATIONS[i]);"),
+    ], ["C02", "C03", "C04", "C05", "C06", "C09"]),
     # log statements (the crate already depends on the `log` facade)
     "logging": ([
         sub("src/cards/five.rs", "        let i = self.or_rank_bits() as usize;\n", "        let i = self.or_rank_bits() as usize;\n        log::trace!(\"ranking five cards with rank mask {:#x}\", i);\n"),
